@@ -14,7 +14,7 @@ LEVEL = "exploration"
 BUDGET = {"quick": 60, "thorough": 900}
 MIN_BUDGET = {"quick": 25, "thorough": 120}
 RULE = ("seeded single-writer histories (length 4-14) over {append, two-append txn, delete file, expire, delete_snapshot, "
-        "retention property, clock advance 0-3 h, open transaction (append_data done, commit/rollback later), "
+        "retention property, clock advance 0-3 h, open transaction (append_data done - or a pre-built file 0-2 h old handed to append_files - commit/rollback later), committed pre-built files referenced as /data/f, data/f, data//f, data/./f, data/sub/../f, ./data/f, "
         "GC(grace in {0, 1 h, 1e9 ms})} x table-location spelling {absolute, relative to cwd, ./x, trailing slash, via "
         "symlinked parent, via symlinked root, relative names d / da / data / m / meta / metadata / metadata2 / "
         "data/x} on local, and S3 prefixes with the same name classes incl. the absolute-looking '/data', '/metadata', '/d' (with and without an environment prefix). "
@@ -37,6 +37,9 @@ S3_SPELLINGS = ["name:tbl", "name:d", "name:data", "name:m", "name:metadata", "n
                 "name:a/b/", "name:/lead", "name:/data", "name:/metadata", "name:/data/", "name:/d"]
 
 
+FILE_SPELLINGS = ["canon", "canon", "noslash", "dslash", "dot", "dotdot", "dotslash"]
+
+
 def gen(rng: random.Random, tier: str, idx: int) -> dict:
     backend = "local" if rng.random() < 0.7 else "s3"
     sp = rng.choice(LOCAL_SPELLINGS if backend == "local" else S3_SPELLINGS)
@@ -47,7 +50,11 @@ def gen(rng: random.Random, tier: str, idx: int) -> dict:
     for j in range(n):
         tag = f"h{j}"
         r = rng.random()
-        if r < 0.25:
+        if r < 0.05:
+            # a committed pre-built file, referenced under one of the path spellings append_files() accepts
+            ops.append({"kind": "files_append", "tag": tag, "n": 1, "age": rng.choice([0.0, 4000.0]),
+                        "spell": rng.choice(FILE_SPELLINGS if backend == "local" else FILE_SPELLINGS[:3])})
+        elif r < 0.25:
             ops.append({"kind": "append", "tag": tag, "n": rng.randint(1, 2)})
         elif r < 0.32:
             ops.append({"kind": "multi", "tag": tag, "n": 1})
@@ -61,7 +68,13 @@ def gen(rng: random.Random, tier: str, idx: int) -> dict:
         elif r < 0.70:
             ops.append({"kind": "sleep", "dt": rng.choice([0.0, 10.0, 1800.0, 3700.0, 10800.0, 90000.0])})
         elif r < 0.78 and len(open_ids) < 2:
-            ops.append({"kind": "tx_open", "id": nid, "tag": tag, "n": 1, "second": rng.random() < 0.3})
+            if rng.random() < 0.35:
+                # the transaction registers a PRE-BUILT file (append_files), possibly older than any grace period
+                ops.append({"kind": "tx_open", "id": nid, "tag": tag, "n": 1, "prebuilt": True,
+                            "age": rng.choice([0.0, 4000.0, 8000.0]),
+                            "spell": rng.choice(FILE_SPELLINGS if backend == "local" else FILE_SPELLINGS[:3])})
+            else:
+                ops.append({"kind": "tx_open", "id": nid, "tag": tag, "n": 1, "second": rng.random() < 0.3})
             open_ids.append(nid)
             nid += 1
         elif r < 0.84 and open_ids:
